@@ -1,4 +1,4 @@
-import MsqProofs.Lemmas.LexLinkDdl3
+import MsqProofs.Lemmas.LexLinkDdl4
 import MsqProofs.Props.C18T
 import MsqProofs.Props.C03L
 /-!
@@ -14,6 +14,8 @@ lexer table, for the WHOLE fragment `TD.FragCreate d c` and both renderings (`d 
 * `C03.tcreate_text` : text → dialect pre-pass → lexer → `pStatements` with the entry point's own fuel: `PM.parseStatementsText d text =
   ok [CREATE TABLE c]`;  `C01.create_round_trip_text` : … and printing what was parsed gives the same text;
 * `C18.print_hiveProj` : the Hive printer's TEXT for any table is its text for the projection `hiveProj c` (what Hive DDL can state);
+* `C18.schema_preserved_text_full` / `_catalogued` : the same with hypotheses on the MySQL table ONLY (the conditions on the converted
+  table are derived: `LD.frag_conv`, `leaf_conv`, `noEq_conv`; `LD.HiveParams`: the parameters Hive keeps are in the Hive expression fragment);
 * `C18.convert_round_trip_text` / `C18.schema_preserved_text` : **the property on texts** — a MySQL table of the fragment is printed,
   its text parsed as MySQL (giving the table back), converted with the shipped type table, printed for Hive, that TEXT parsed as Hive: the
   result is the Hive projection of the converted table and its schema view is the mapped view of the original (same schema, table, column
@@ -413,6 +415,35 @@ theorem noEqC_of_B (c : CreateTable) (h : noEqCB c = true) : NoEqC c := by
     optNoEq_of_B _ h6, optNoEq_of_B _ h7, optNoEq_of_B _ h8, optNoEq_of_B _ h9,
     fun p hp => ⟨noEqS_ok _ (h10 p hp).1, noEqS_ok _ (h10 p hp).2⟩⟩
 
+/-- **the property on texts, hypotheses on the MySQL table only**: `c` in the MySQL fragment with lexable payloads none of which contains
+`==` (F-C06-2), the parameters Hive will keep in the Hive expression fragment (`HiveParams`: integer literals are), `change_type` succeeds
+(F-C18-1).  Then: the MySQL text of `c` parses to `c`; the Hive text of the converted table parses (as Hive) to a table whose schema
+view is the mapped view of `c`.  The three conditions on the converted table are DERIVED (`LD.frag_conv`, `leaf_conv`, `noEq_conv`). -/
+theorem schema_preserved_text_full (rp : Bool) (c c' : CreateTable)
+    (hf : FragCreate .MYSQL c = true) (hl : LeafC .MYSQL c) (hq : NoEqC c) (hp : HiveParams rp c)
+    (h : changeTypeT Gen.mysqlToHive rp c = .ok c') :
+    ∃ (my hive : String) (p : CreateTable) (cols : List ColView),
+      PR.prStmt .MYSQL (.createTable c) = .ok my ∧ parseStatementsText .MYSQL my.toList = .ok [.createTable c] ∧
+      PR.prStmt .HIVE (.createTable c') = .ok hive ∧ parseStatementsText .HIVE hive.toList = .ok [.createTable p] ∧
+      mapCols Gen.mysqlToHive rp (view c).cols = some cols ∧
+      view p = ⟨(view c).schema, (view c).table, cols.map ColView.hive, (view c).parts.map ColView.hive, (view c).comment⟩ :=
+  schema_preserved_text rp c c' hf hl h (frag_conv rp c c' hf hl h hp) (leaf_conv rp c c' hf hl h) (noEq_conv rp c c' hf hl h hq)
+
+/-- … and for tables whose column types are all in the parser's catalogue the conversion succeeds by itself (`C18.changeTypeT_total`):
+no hypothesis about `change_type` is left -/
+theorem schema_preserved_text_catalogued (rp : Bool) (c : CreateTable)
+    (hf : FragCreate .MYSQL c = true) (hl : LeafC .MYSQL c) (hq : NoEqC c) (hp : HiveParams rp c)
+    (hcat : ∀ col ∈ c.columns, Catalogued col) :
+    ∃ (c' : CreateTable) (my hive : String) (p : CreateTable) (cols : List ColView),
+      changeTypeT Gen.mysqlToHive rp c = .ok c' ∧
+      PR.prStmt .MYSQL (.createTable c) = .ok my ∧ parseStatementsText .MYSQL my.toList = .ok [.createTable c] ∧
+      PR.prStmt .HIVE (.createTable c') = .ok hive ∧ parseStatementsText .HIVE hive.toList = .ok [.createTable p] ∧
+      mapCols Gen.mysqlToHive rp (view c).cols = some cols ∧
+      view p = ⟨(view c).schema, (view c).table, cols.map ColView.hive, (view c).parts.map ColView.hive, (view c).comment⟩ := by
+  obtain ⟨c', h⟩ := C18.changeTypeT_total rp c hcat
+  obtain ⟨my, hive, p, cols, r⟩ := schema_preserved_text_full rp c c' hf hl hq hp h
+  exact ⟨c', my, hive, p, cols, h, r⟩
+
 /-- **the property on texts with decidable hypotheses**: everything about the two tables is a Bool that evaluates (`FragCreate`, `leafCB`,
 the sufficient condition `hiveOK` of `C18T.lean` for the Hive fragment, `noEqCB`); `changeTypeT … = ok c'` is the exclusion of F-C18-1 -/
 theorem schema_preserved_text_B (rp : Bool) (c c' : CreateTable)
@@ -509,6 +540,16 @@ def witness_conv_eqeq : Bool :=
      | .error _ => false)
   | none => false
 #guard witness_conv_eqeq
+/-- the hypotheses of `schema_preserved_text_full` (all on the MySQL table), evaluated -/
+def fullHyps (rp : Bool) (c : CreateTable) : Bool :=
+  FragCreate .MYSQL c && leafCB .MYSQL c && noEqCB c && hiveParamsB rp c &&
+    c.columns.all fun col => Gen.mysqlDataTypes.any (·.1 == Gen.pyUpperS col.type.name)
+def fullHypsText (ddl : String) (rp : Bool) : Bool := match parseMy ddl with | some c => fullHyps rp c | none => false
+#guard fullHypsText ddl1 false && fullHypsText ddl1 true && fullHypsText ddl2 false && fullHypsText ddl3 false && fullHypsText ddl4 false &&
+  fullHypsText ddl4 true && fullHypsText ddl6 true
+-- `DECIMAL((1 = 1), 2)`: the parameter is in the Hive fragment too
+#guard fullHypsText ddl5 false
+#guard Gen.mysqlDataTypes.all fun t => [0, 1, 2].all fun n => fullHyps false (typeTable t.1 n) && fullHyps true (typeTable t.1.toLower n)
 
 /-! instances of the theorems: hypotheses decided in the kernel on `C18.t1` (Hive) and `C18.t2` (MySQL) of `C18T.lean` -/
 example : ∃ str, PR.prStmt .MYSQL (.createTable t2) = .ok str ∧ parseStatementsText .MYSQL str.toList = .ok [.createTable t2] ∧
@@ -520,5 +561,19 @@ example : ∃ str ts, PR.prStmt .HIVE (.createTable t1) = .ok str ∧ Lex.lex Ge
 example : Lex.lex Gen.cfgS (createL .MYSQL t2) = .ok (toksCreate .MYSQL t2) := by
   obtain ⟨str, _, h2, h3⟩ := lex_prCreate .MYSQL (Or.inl rfl) t2 (by decide) (leafC_of_B _ _ (by decide +kernel))
   rw [← h2]; exact h3
+
+/-- **an instance of the full property on texts, every hypothesis decided in the kernel** (the MySQL table `C18.t2`: BIGINT(20) UNSIGNED
+NOT NULL AUTO_INCREMENT, VARCHAR(8) CHARACTER SET … DEFAULT NULL COMMENT, PRIMARY KEY, KEY … USING BTREE, ENGINE, COMMENT) -/
+example : ∃ (c' : CreateTable) (my hive : String) (p : CreateTable) (cols : List ColView),
+      changeTypeT Gen.mysqlToHive false t2 = .ok c' ∧
+      PR.prStmt .MYSQL (.createTable t2) = .ok my ∧ parseStatementsText .MYSQL my.toList = .ok [.createTable t2] ∧
+      PR.prStmt .HIVE (.createTable c') = .ok hive ∧ parseStatementsText .HIVE hive.toList = .ok [.createTable p] ∧
+      mapCols Gen.mysqlToHive false (view t2).cols = some cols ∧
+      view p = ⟨(view t2).schema, (view t2).table, cols.map ColView.hive, (view t2).parts.map ColView.hive, (view t2).comment⟩ :=
+  schema_preserved_text_catalogued false t2 (by decide) (leafC_of_B _ _ (by decide +kernel)) (noEqC_of_B _ (by decide +kernel))
+    (hiveParams_of_B _ _ (by decide +kernel)) (by
+      intro col hc
+      simp only [t2, emptyCreate, List.mem_cons, List.mem_nil_iff, or_false] at hc
+      rcases hc with rfl | rfl <;> (unfold Catalogued; decide +kernel))
 
 end C18L
